@@ -100,3 +100,33 @@ Definition probes_ok (T : ltable) (probes : list (nat * list (Q * Q * Q))) : boo
                           Qeq_bool t (x * kt) && Qeq_bool f (x * kf)) (snd up)
     | _ => false
     end) probes.
+
+(* one sensor object, a sequence of calls and what each returned:
+   (voltage_in, [call + observation]) *)
+Inductive hstep :=
+| HRead (v : Q) (r : option Q)          (* .pressure at v V -> Some float | None (raised, inf, nan) *)
+| HCal (v p : Q) (r : option bool).     (* .calibrate(p) at v V: Some false = returned, Some true =
+                                           raised ZeroDivisionError, None = anything else *)
+
+Definition hstep_op (h : hstep) : sop :=
+  match h with HRead v _ => OpRead v | HCal v p _ => OpCalibrate v p end.
+
+Definition hstep_ok (h : hstep) (o : sobs) : bool :=
+  match h, o with
+  | HRead _ r, ObsRead m => close_out 25 r m
+  | HCal _ _ (Some false), ObsCalibrate (Val _) => true
+  | HCal _ _ (Some true), ObsCalibrate (Raise ZeroDivisionError) => true
+  | _, _ => false
+  end.
+
+Fixpoint all2 {A B : Type} (f : A -> B -> bool) (a : list A) (b : list B) : bool :=
+  match a, b with
+  | [], [] => true
+  | x :: a', y :: b' => f x y && all2 f a' b'
+  | _, _ => false
+  end.
+
+Definition history_case := (Q * list hstep)%type.
+Definition history_ok (K : sconsts) (c : history_case) : bool :=
+  let '(vcc, hs) := c in
+  all2 hstep_ok hs (observations K (new_sensor vcc) (map hstep_op hs)).
